@@ -837,6 +837,27 @@ class _Attached:
         return True
 
 
+def _held_tests(ctx, fn: FuncInfo, node: ast.AST) -> Dict[str, bool]:
+    """{test text: outcome} of the `if` tests ``node`` is nested in, restricted to tests over names that are assigned
+    at most once in the function (so a later, textually identical test decides the same way in the same iteration)."""
+    out: Dict[str, bool] = {}
+    child = node
+    for a in ancestors(node):
+        if a is fn.node:
+            break
+        if isinstance(a, ast.If):
+            in_body = any(child is s or child in ast.walk(s) for s in a.body)
+            names = {x.id for x in ast.walk(a.test) if isinstance(x, ast.Name)}
+            calls = [x for x in ast.walk(a.test) if isinstance(x, ast.Call)]
+            stable = not calls and all(
+                sum(1 for n in walk_local(fn.node) if isinstance(n, ast.Name) and isinstance(n.ctx, ast.Store) and n.id == nm) <= 1 for nm in names
+            ) and not any(isinstance(x, ast.Attribute) for x in ast.walk(a.test))
+            if stable and names:
+                out[norm(a.test)] = in_body
+        child = a
+    return out
+
+
 def _ctx_guard_filter(ctx, fn: FuncInfo):
     """Edge filter: follow only the branches taken when a context is active (the object is then
     attached to a model; flags such as ``reversibly`` have their default value)."""
@@ -1044,7 +1065,9 @@ def check_inverse(ctx, regs: List[Registration]) -> None:
         guarded = _guarded_insert_nodes(ctx, fn, g)
         base_edge_ok = edge_ok
         edge_ok = lambda x, y, l, _b=base_edge_ok: _b(x, y, l) and not (l == "exc" and x in guarded)  # noqa: E731
+        fn_edge_ok = edge_ok
         for m in own:
+            edge_ok = fn_edge_ok
             kfn, kcon = fn.qualname.replace("cobra.", "", 1), norm(enclosing_stmt(m.node))
             reason = _excepted(kfn, kcon, m.cell, "none")
             covering = [r for r in fregs if _reg_covers(ctx, fn, m, r)]
@@ -1065,10 +1088,18 @@ def check_inverse(ctx, regs: List[Registration]) -> None:
                     it_roots = eff.roots_of(fn, lp.iter)
                     mlp = _enclosing_for(m.node, fn)
                     same_iter = mlp is not None and norm(mlp.iter) == norm(lp.iter)
-                    if same_iter or (it_roots & m.roots):
+                    # ... unless the mutation sits in that very loop: then the registration has to be reached in
+                    # the same iteration, on every path through the loop body
+                    holds_mutation = any(x is m.node for x in ast.walk(lp))
+                    if (same_iter or (it_roots & m.roots)) and not holds_mutation:
                         cnodes |= set(g.nodes_for(lp))
                     lp = _enclosing_for(lp, fn)
             anchors = [n for n in g.node_containing(m.node) if n.kind != "with_exit"]
+            # tests the mutation itself sits under hold for the rest of the iteration: `if c != 0: mutate` ...
+            # `if context: if c != 0: register` are the same decision when the names of the test are assigned once
+            held = _held_tests(ctx, fn, m.node)
+            if held:
+                edge_ok = (lambda _e, _h: (lambda x, y, l: _e(x, y, l) and not (x.kind == "test" and x.ast is not None and l in ("true", "false") and _h.get(norm(x.ast)) is not None and _h[norm(x.ast)] != (l == "true"))))(edge_ok, held)
             # normal completion: every context-active path through the mutation passes an inverse
             w = None
             for a in anchors:
